@@ -388,11 +388,16 @@ func c12BufferReuse(c *Ctx, r *Rng) {
 		m := new(dns.Msg)
 		m.SetQuestion("reuse.example.", dns.TypeHTTPS)
 		m.Id = id
-		txt := fmt.Sprintf("s.example. 60 IN HTTPS 1 . alpn=h%d ipv4hint=192.0.2.%d,198.51.100.%d ipv6hint=2001:db8::%x ech=AAEC%02X port=%d", v%9+1, v, v, v, v, 1000+int(v))
-		if rr, err := dns.NewRR(txt); err == nil {
-			m.Answer = []dns.RR{rr}
+		txt := fmt.Sprintf("s.example. 60 IN HTTPS 1 . alpn=h%d ipv4hint=192.0.2.%d,198.51.100.%d ipv6hint=2001:db8::%x ech=AAEC%02X%02X port=%d", v%9+1, v, v, v, v, v, 1000+int(v))
+		rr, err := dns.NewRR(txt)
+		if err != nil {
+			panic("c12: fixture does not parse: " + err.Error())
 		}
-		apl, _ := dns.NewRR(fmt.Sprintf("a.example. 60 IN APL 1:10.%d.0.0/16 2:2001:db8:%x::/48", v, v))
+		m.Answer = []dns.RR{rr}
+		apl, err := dns.NewRR(fmt.Sprintf("a.example. 60 IN APL 1:10.%d.0.0/16 2:2001:db8:%x::/48", v, v))
+		if err != nil {
+			panic("c12: fixture does not parse: " + err.Error())
+		}
 		m.Ns = []dns.RR{apl}
 		o := &dns.OPT{Hdr: dns.RR_Header{Name: ".", Rrtype: dns.TypeOPT}}
 		o.SetUDPSize(1232)
